@@ -390,6 +390,27 @@ func reifyGetField(
 	return nil
 }
 
+// withReferencedSub calls fn with the object or list that val refers to,
+// directly or through a chain of references. All references on the way stay
+// active until fn returns. It reports whether val referred to an object or list.
+func withReferencedSub(val value, opts *options, fn func(cfgSub)) (handled bool) {
+	dyn, ok := val.(*cfgDynamic)
+	if !ok {
+		return false
+	}
+	var err error
+	dyn.withValue(&err, opts, func(v value) {
+		switch v := v.(type) {
+		case cfgSub:
+			handled = true
+			fn(v)
+		case *cfgDynamic:
+			handled = withReferencedSub(v, opts, fn)
+		}
+	})
+	return handled
+}
+
 func reifyValue(
 	opts fieldOptions,
 	t reflect.Type,
@@ -398,16 +419,11 @@ func reifyValue(
 	// A reference to an object or list stays active (for the detection of
 	// cycles) while the referenced setting is unpacked: the target type may be
 	// recursive, so only the configuration can end the recursion.
-	if dyn, ok := val.(*cfgDynamic); ok {
+	if _, ok := val.(*cfgDynamic); ok {
 		var out reflect.Value
 		var outErr Error
-		handled := false
-		var err error
-		dyn.withValue(&err, opts.opts, func(v value) {
-			if sub, isSub := v.(cfgSub); isSub {
-				handled = true
-				out, outErr = reifyValue(opts, t, sub)
-			}
+		handled := withReferencedSub(val, opts.opts, func(sub cfgSub) {
+			out, outErr = reifyValue(opts, t, sub)
 		})
 		if handled {
 			return out, outErr
@@ -493,16 +509,11 @@ func reifyMergeValue(
 ) (reflect.Value, Error) {
 	// see reifyValue: a reference to an object or list stays active while the
 	// referenced setting is unpacked
-	if dyn, ok := val.(*cfgDynamic); ok {
+	if _, ok := val.(*cfgDynamic); ok {
 		var out reflect.Value
 		var outErr Error
-		handled := false
-		var err error
-		dyn.withValue(&err, opts.opts, func(v value) {
-			if sub, isSub := v.(cfgSub); isSub {
-				handled = true
-				out, outErr = reifyMergeValue(opts, oldValue, sub)
-			}
+		handled := withReferencedSub(val, opts.opts, func(sub cfgSub) {
+			out, outErr = reifyMergeValue(opts, oldValue, sub)
 		})
 		if handled {
 			return out, outErr
